@@ -104,6 +104,7 @@ type BadEnumInfo struct {
 // Traits are facts about what an execution touched.
 type Traits struct {
 	MaxDepth     int
+	MaxLevels    int // deepest leaf counted in object and list levels (what ggql's depth limit counts)
 	Aliases      int
 	Inline       int
 	Spread       int
@@ -129,6 +130,7 @@ type Traits struct {
 // model the properties state (a failed position is null, siblings keep their
 // values, one entry per failure).
 type Exec struct {
+	levels int
 	S      *Schema
 	G      *Graph
 	D      *Doc
@@ -181,6 +183,7 @@ func (x *Exec) Run(opName string, vars map[string]Val) *Expect {
 		x.faults[faultKey(f.Node, f.Field)] = f
 	}
 	x.visited = map[int]int{}
+	x.levels = 0
 	op := ChooseOp(x.D, opName)
 	if op == nil {
 		x.out.Rejected = true
@@ -209,6 +212,7 @@ func (x *Exec) RunSelection(n *Node, sels []*Sel, vars map[string]Val) *Expect {
 		x.faults[faultKey(f.Node, f.Field)] = f
 	}
 	x.visited = map[int]int{}
+	x.levels = 0
 	x.vars = vars
 	if x.vars == nil {
 		x.vars = map[string]Val{}
@@ -418,6 +422,9 @@ func (x *Exec) complete(v Val, t *TRef, s *Sel, path []interface{}, depth int, n
 		x.out.T.NullSeen++
 		return nil
 	}
+	if x.levels+1 > x.out.T.MaxLevels {
+		x.out.T.MaxLevels = x.levels + 1 // (every value that is not null is looked at one level below its container)
+	}
 	if t.List != nil {
 		if depth == 0 {
 			_ = depth
@@ -436,6 +443,8 @@ func (x *Exec) complete(v Val, t *TRef, s *Sel, path []interface{}, depth int, n
 			x.out.T.EmptyList++
 		}
 		outl := make([]interface{}, 0, len(v.L))
+		x.levels++
+		defer func() { x.levels-- }()
 		for i, e := range v.L {
 			p := append(append([]interface{}{}, path...), i)
 			if nth != nil && nth.Index == i {
@@ -465,7 +474,9 @@ func (x *Exec) complete(v Val, t *TRef, s *Sel, path []interface{}, depth int, n
 			x.out.T.AbstractHops++
 		}
 		m := map[string]interface{}{}
+		x.levels++
 		x.selSet(n, s.Sels, m, path, depth+1)
+		x.levels--
 		return m
 	}
 	// leaf
